@@ -269,3 +269,7 @@ impl State {
         Access::set_or_create(&mut self.last_access, path_id, version)
     }
 }
+
+#[cfg(loom_verif)]
+#[path = "/verif/hooks/rwlock_verif.rs"]
+pub(crate) mod verif;
